@@ -246,6 +246,7 @@ class Interp:
                 else:
                     _, ke, pat = p
                     key = self.str_key(self.eval(ke, env)[0], 'property')
+                    if key == b'_' and pat.kind == 'var' and pat.name == '_' and key not in src[1].props: raise Unspecified('`{"_": _}` on an object without that key')
                     if key not in src[1].props: raise RefError('prop-missing', None, name=key)
                     self.bind(pat, src[1].props[key], env, mode, names); remaining.discard(key)
         else:
